@@ -149,7 +149,7 @@ class Cfg(object):
     def __init__(self, profile="pubsub", model="sync", close_delay=0.0, jitter="const",
                  jitter_value=0.5, seed=0, ondisc=True, onconn=False, onpub=True,
                  re_pub_on_fail=False, re_pub_on_connmade=False, re_echo=False,
-                 re_connect_on_disc=False, late=0.0, re_disc_on=None):
+                 re_connect_on_disc=False, late=0.0, re_disc_on=None, re_on_refuse=None):
         self.__dict__.update(locals())
         del self.__dict__["self"]
 
@@ -427,6 +427,19 @@ class World(object):
                             is_reason=(getattr(c, "loss_reason", None) is not None
                                        and v is c.loss_reason.value),
                             msg=str(v)[:120])
+                    if (self.cfg.re_on_refuse and op == "connect" and type(v).__name__ == "MQTTStateError"
+                            and self.depth == 0 and not self.ended and info.get("why") != "retry"):
+                        # an application that reacts to a refusal from inside the errback
+                        self.depth += 1
+                        try:
+                            if self.cfg.re_on_refuse == "publish":
+                                self._api_publish(c, 1, False, 3, "on-refusal")
+                            else:
+                                kw = {"keepalive": 0, "cleanStart": True, "version": V[4]}
+                                self._api(c, "connect", c.proto.connect, (("cid-retry",), kw),
+                                          {"clean": True, "keepalive": 0, "level": 4, "clientId": "cid-retry", "extra": {}, "why": "retry"})
+                        finally:
+                            self.depth -= 1
                     if (self.cfg.re_pub_on_fail and op == "publish" and self.depth == 0
                             and not self.ended and info.get("why") != "refail"):
                         self.depth += 1
@@ -474,7 +487,9 @@ class World(object):
     def _api_publish(self, c, qos, retain, size, why="step", tkind="plain", ptype="bytearray"):
         tok = self._tok(c.a)
         body = b"~%06d~" % tok + b"p" * max(0, size)
-        payload = bytearray(body) if ptype == "bytearray" else body.decode("ascii")
+        if ptype == "ustr":          # a str payload that is longer in UTF-8 bytes than in characters
+            body += "é€\U0001f600".encode("utf-8")
+        payload = bytearray(body) if ptype == "bytearray" else body.decode("utf-8")
         topic = self._topic(tkind, tok)
         info = {"token": tok, "qos": qos, "retain": retain, "topic": topic, "payload": body,
                 "why": why}
@@ -1040,7 +1055,7 @@ def _plain(v):
     if isinstance(v, (bytes, bytearray)):
         return bytes(v[:64])
     if isinstance(v, (list, tuple)):
-        return [_plain(x) for x in v[:20]]
+        return [_plain(x) for x in v[:600]]
     if isinstance(v, dict):
         return {str(k): _plain(x) for k, x in list(v.items())[:20]}
     return "<%s>" % type(v).__name__
